@@ -159,7 +159,12 @@ EDITS = ["add_node", "remove_node", "add_edge", "remove_edge", "change_weight", 
          # ... or only in a fractional step of one float weight (0.5 / 0.75, 2.0 / 2.5)
          "weight_float_step",
          # ... or only in the TYPE of the node labels: ints on one side, their str() on the other
-         "node_label_type"]
+         "node_label_type",
+         # ... or only in the value of an attribute whose NAME looks like a structural field of
+         # a record (a pre-image that flattens metadata next to its own fields swallows it)
+         "node_meta_structural_key", "edge_meta_structural_key"]
+STRUCTURAL_KEYS = ["source", "target", "weight", "node", "nodes", "metadata", "time", "layer",
+                   "edge", "type", "weighted"]
 MARK = "CHANGED"
 
 
@@ -281,6 +286,19 @@ def apply_edit(T, U, e, kind):
             return None
         key = keys[e["pick"] % len(keys)]
         T1["edges"][key][0], T2["edges"][key][0] = (0, 1) if e["pick2"] % 2 else (1, 0)
+    elif kind.endswith("_structural_key"):
+        name = STRUCTURAL_KEYS[e["pick2"] % len(STRUCTURAL_KEYS)]
+        a, b = ("survey-2019", "survey-2021") if e["pick"] % 2 else (1, 2)
+        if kind.startswith("node_"):
+            if not nodes:
+                return None
+            n = nodes[e["pick"] % len(nodes)]
+            T1["nodes"][n][name], T2["nodes"][n][name] = a, b
+        else:
+            if not keys:
+                return None
+            key = keys[e["pick"] % len(keys)]
+            T1["edges"][key][1][name], T2["edges"][key][1][name] = a, b
     elif kind.endswith("_list_order") or kind.endswith("_big_int"):
         a, b = [1, 2, "x"], [2, 1, "x"]
         if e["pick2"] % 2:
@@ -344,7 +362,8 @@ def check_edit(case, ctx):
             raise HarnessError("edit %r did not change the content" % (kind,))
         U2 = T2.get("U", U)
         if (kind.startswith("flip_weighted") or kind.endswith("_list_order")
-                or kind.endswith("_big_int") or kind in ("weight_zero_vs_one", "weight_float_step")):
+                or kind.endswith("_big_int") or kind.endswith("_structural_key")
+                or kind in ("weight_zero_vs_one", "weight_float_step")):
             # the only edits that also adjust the first content
             try:
                 hx, bx = B.build(T1, U, case["a"], hash_fn=_hash())
@@ -405,8 +424,10 @@ def check_pure(case, ctx):
     def on_hash(b):
         where = "after %d calls of the history (last: %s)" % (len(b.trace), _short(b.trace[-2:], 300))
         o1 = k.observe(b.h, U, probes)
+        o1["__hg_meta__"] = dc(b.h.get_hypergraph_metadata())   # the whole dict, own keys too
         v1 = _hash()(b.h)
         o2 = k.observe(b.h, U, probes)
+        o2["__hg_meta__"] = dc(b.h.get_hypergraph_metadata())
         d = diff_obs(o1, o2)
         require(d is None, lambda: "hash_hypergraph changed the %s it hashed, %s: %s"
                 % (T["type"], where, d), key="hash-mutates")
@@ -427,6 +448,13 @@ def check_pure(case, ctx):
     b.repair()
     B.require_content(b)
     b.do({"op": "hash"})
+    if len(case["a"]["noise"]) % 2:
+        # the hypergraph metadata replaced wholesale by the user's own fields (the
+        # implementation-set 'weighted'/'type' entries are gone): hashing must not put
+        # anything back into the object's -- and the caller's -- dict
+        b.do({"op": "set_hypergraph_metadata", "meta": dc(T["hg_user"])})
+        b.do({"op": "hash"})
+        ctx.label("hash_after_wholesale_hypergraph_metadata")
     ctx.label("type:" + T["type"])
     ctx.label("hash_points:%s" % ("3" if n_hash[0] == 3 else "4-5" if n_hash[0] <= 5 else "6+"))
     B.history_labels(b, ctx)
